@@ -97,14 +97,14 @@ Proof.
   - f_equal. apply IH. intros y Hy. apply H. exact Hy.
 Qed.
 
-Lemma set_lf_try_content st l f ty sn sid :
-  lf_at st l = Some f -> same_content st (set_lf st l (try_add_set f ty sn sid)).
+Lemma set_lf_try_content st s0 l f ty sn sid :
+  lf_at st l = Some f -> same_content st (set_lf st l (try_add_set s0 f ty sn sid)).
 Proof.
   intros Hf. constructor; cbn.
   - reflexivity.
   - exists []. rewrite app_nil_r. auto.
   - apply upd_map_same. intros y Hy. unfold lf_at in Hf. rewrite Hf in Hy. inv Hy.
-    unfold try_add_set. cbv zeta. destruct (reg_find (l_reg y) ty _); reflexivity.
+    unfold try_add_set. cbv zeta. destruct (reg_find (forget_empty s0 (l_reg y) ty _) ty _); reflexivity.
 Qed.
 
 Lemma same_content_trans a b c : same_content a b -> same_content b c -> same_content a c.
@@ -117,7 +117,7 @@ Qed.
 
 Lemma gms_try_content st l f ty sn st1 sid :
   lf_at st l = Some f -> get_or_make_set st ty sn = (st1, sid) ->
-  same_content st (set_lf st1 l (try_add_set f ty sn sid)).
+  same_content st (set_lf st1 l (try_add_set st1 f ty sn sid)).
 Proof.
   intros Hf Hg. destruct (gms_content _ _ _ _ _ Hg) as (Hi & Hl & extra & Hs & He).
   apply same_content_trans with st1.
@@ -364,7 +364,7 @@ Proof.
   unfold add_common. destruct (lf_at st l) as [f|]; [|intros H; inv H; auto].
   destruct (get_or_make_set st ty sn) as [st1 sid] eqn:Hg. intros H Hi.
   pose proof (gms_inv _ _ _ _ _ Hg Hi) as Hi1.
-  set (st2 := set_lf st1 l (try_add_set f ty sn sid)) in *.
+  set (st2 := set_lf st1 l (try_add_set st1 f ty sn sid)) in *.
   assert (Hi2 : Inv_copy st2) by exact Hi1.
   destruct name; try (inv H; exact Hi2).
   destruct (hc && negb (hc_string s)); [inv H; exact Hi2|].
